@@ -207,8 +207,10 @@ def jobs_c05(tier, seed):
 def jobs_c08(tier, seed):
     f = ["c08"]
     names = [
-        ("never_two_ops", "AutoStream::never: any two operations from {write, write_all, write_vectored, write_fmt, flush} with symbolic <=2-byte payloads vs StripStream"),
-        ("new_never_two_ops", "AutoStream::new(.., Never): same"),
+        ("never_two_cheap_ops", "AutoStream::never: any two operations from {write_all, write_fmt, flush} with symbolic <=2-byte payloads vs StripStream"),
+        ("new_never_two_cheap_ops", "AutoStream::new(.., Never): same"),
+        ("never_one_write_op", "AutoStream::never: one write / write_vectored with a symbolic <=1-byte first slice vs StripStream"),
+        ("new_never_one_write_op", "AutoStream::new(.., Never): same"),
         ("always_ansi_two_ops", "AutoStream::always_ansi: any two operations, bytes forwarded unchanged"),
         ("always_two_ops", "AutoStream::always (non-Windows): same"),
         ("new_always_ansi_two_ops", "AutoStream::new(.., AlwaysAnsi): same"),
@@ -452,7 +454,7 @@ REGISTRY = {
         "jobs": jobs_c08,
         "level": "model_checking",
         "functions": ["anstream::AutoStream::{new, never, always, always_ansi, into_inner, current_choice} and its io::Write impl over &mut dyn Write and Vec<u8>", "anstream::StripStream (oracle for Never)"],
-        "bounds": {"quick": "every sequence of 2 write-family operations (kind symbolic among write/write_all/write_vectored/write_fmt/flush) with symbolic payloads of <=2 bytes (+1 byte second slice / fragment)", "thorough": "same"},
+        "bounds": {"quick": "pass-through: every sequence of 2 write-family operations (kind symbolic among write/write_all/write_vectored/write_fmt/flush), payloads <=2 bytes; Never: every pair from {write_all, write_fmt, flush} plus single write / write_vectored operations with <=1-byte first slice, each against a StripStream fed the same operations", "thorough": "same"},
         "outside": "longer operation sequences and payloads; files and boxed writers (same generic code); ColorChoice::Auto is C09; Windows arms",
         "assumptions": ["Never is compared with a StripStream fed the same operations (C01/C06 tie the strip stream to the model)"],
     },
